@@ -183,7 +183,7 @@ macro_rules! row_tc19 {
 }
     };
 }
-// @harness name=c09_row_tc19_default props=C09,C11,C19:thorough tier=quick cap=1500 needs=kfmod
+// @harness name=c09_row_tc19_default props=C09,C11,C19 tier=quick cap=1500 needs=kfmod
 // row step, DEFAULT path: any DF17 TC19 subtype 1/2 squitter on an arbitrary row, -R symbolic: the row's
 // ground speed, track and vertical rate are the values of this frame (blank for 'no information')
 row_tc19!(c09_row_tc19_default, false);
